@@ -101,10 +101,14 @@ Definition budget (ps : list path) : option Z :=
   end.
 
 (* connection-level constants of the builder configuration *)
-Record acfg := mkAcfg { a_client : bool; a_mds : Z; a_peer : Z; a_host : Z; a_token : Z }.
+Record acfg := mkAcfg { a_client : bool; a_mds : Z; a_peer : Z; a_host : Z; a_token : Z; a_cmax : option Z }.
+
+(* the builder configuration of one send round *)
+Definition bcfg (a : acfg) (mf mt : option Z) : cfg :=
+  mkCfg (a_client a) (a_mds a) (a_peer a) (a_host a) (a_token a) mf mt (a_cmax a).
 
 Definition round_lens (a : acfg) (mf mt : option Z) (ops : list op) : list Z :=
-  let c := mkCfg (a_client a) (a_mds a) (a_peer a) (a_host a) (a_token a) mf mt in
+  let c := bcfg a mf mt in
   snd (run c (init_st c 0) (ops ++ [OpFlush])).
 
 (* connection state relevant here: the registered paths and whether the connection has entered an END state
@@ -132,26 +136,15 @@ Definition aop_ok (a : acfg) (s : ast) (o : aop) : bool :=
   | ARecv _ n _ => 0 <=? n
   | ARecvPending _ n => 0 <=? n
   | ASend mf ops =>
-      let c := mkCfg (a_client a) (a_mds a) (a_peer a) (a_host a) (a_token a) mf (budget (as_paths s)) in
+      let c := bcfg a mf (budget (as_paths s)) in
       disciplined c (init_st c 0) (ops ++ [OpFlush])
   | AClose _ | ATerm => true
-  end.
-
-Definition aop_nosample (a : acfg) (s : ast) (o : aop) : bool :=
-  as_closed s ||
-  match o with
-  | ASend mf ops =>
-      let c := mkCfg (a_client a) (a_mds a) (a_peer a) (a_host a) (a_token a) mf (budget (as_paths s)) in
-      nosample c (init_st c 0) (ops ++ [OpFlush])
-  | _ => true
   end.
 
 Definition is_close (o : aop) : bool := match o with AClose _ => true | _ => false end.
 
 Fixpoint aok (a : acfg) (s : ast) (l : list aop) : bool :=
   match l with [] => true | o :: t => aop_ok a s o && aok a (astep a s o) t end.
-Fixpoint anosample (a : acfg) (s : ast) (l : list aop) : bool :=
-  match l with [] => true | o :: t => aop_nosample a s o && anosample a (astep a s o) t end.
 
 (* ---------- executable interface (ledger bookkeeping only; send rounds are given by their observed
    datagram lengths) -------------------------------------------------------------------------
